@@ -313,7 +313,11 @@ class BuiltinMixin:
         raise OutOfSubset('method %s on %r' % (name, recv))
 
     def list_method(self, recv, c, name, args, kwargs, st, node):
-        if name == 'append':
+        if name in ('__iter__', 'keys') and not args:
+            yield recv, st
+        elif name == '__len__' and not args:
+            yield SV(INT, c.n), st
+        elif name == 'append':
             self.list_append(st, recv, args[0])
             yield NONEV, st
         elif name == 'extend':
@@ -390,7 +394,11 @@ class BuiltinMixin:
         yield NONEV, st
 
     def dict_method(self, recv, c, name, args, kwargs, st, node):
-        if name == 'get':
+        if name == '__iter__' and not args:
+            yield recv, st
+        elif name == '__len__' and not args:
+            yield SV(INT, c.n), st
+        elif name == 'get':
             k = self.key_pack(st, c, self.lift(args[0]))
             isin = z3.Select(c.dom, k)
             v = unpack(st, z3.Select(c.val, k), c.t.args[1], parent=(recv, k))
